@@ -386,6 +386,33 @@ example : (handleReq [116, 111, 100, 111, 47, 55, 0] [2]).1 =
     [.unlink [105, 110, 116, 100, 47, 55], .status 33] := by decide
 example : allowed [116, 111, 100, 111, 47, 55, 0] = [[105, 110, 116, 100, 47, 55], [116, 111, 100, 111, 47, 55]] := by decide
 
+/-- `cleanuppid()` at time 1700000000 on a directory "1" (atime exactly OSSIFIED old), "2" (one second
+fresher), ".", "..", "3" (stat fails), "4" (atime 0): removes pid/1 and pid/4 only -/
+example : cleanuppid ⟨1700000000, some [⟨[49], some 1699870400⟩, ⟨[50], some 1699870401⟩, ⟨[46], some 0⟩, ⟨[46, 46], some 0⟩,
+      ⟨[51], none⟩, ⟨[52], some 0⟩]⟩ =
+    [.cleanup, .unlink [112, 105, 100, 47, 49], .unlink [112, 105, 100, 47, 52], .cleanupEnd] := by decide
+/-- the oracle rejects a sweep that removes the fresh entry "2", and one that removes a path outside `pid/` -/
+example : cleanOK [] [⟨1700000000, some [⟨[50], some 1699870401⟩]⟩] [.cleanup, .unlink [112, 105, 100, 47, 50], .cleanupEnd] = false := by
+  decide
+example : cleanOK [] [⟨1700000000, some [⟨[50], some 0⟩]⟩] [.cleanup, .unlink [105, 110, 116, 100, 47, 50], .cleanupEnd] = false := by
+  decide
+example : cleanOK [] [⟨1700000000, some [⟨[50], some 0⟩]⟩] [.cleanup, .unlink [112, 105, 100, 47, 50], .cleanupEnd] = true := by
+  decide
+/-- a whole run: the sweep, then the request "todo/7" -/
+example : run [116, 111, 100, 111, 47, 55, 0] [] [⟨200000, some [⟨[120], some 5⟩]⟩] =
+    [.cleanup, .unlink [112, 105, 100, 47, 120], .cleanupEnd, .unlink [105, 110, 116, 100, 47, 55],
+     .unlink [116, 111, 100, 111, 47, 55], .status 43, ] := by decide
+
+/-- the open/spawn oracle is not trivially true: an open of a path no command names, a spawn after the open of a
+foreign-owned file (plan 4), a spawn with another recipient than the command's are all rejected; the honest trace is accepted -/
+example : opensOK [] [] [.openRead [49]] = false := by decide
+example : opensOK [⟨3, [49], [115], [64]⟩] [4] [.openRead [49], .spawnCall 3 [115] [64] 0] = false := by decide
+example : opensOK [⟨3, [49], [115], [64]⟩] [0] [.openRead [49], .spawnCall 3 [115] [64, 120] 0] = false := by decide
+example : opensOK [⟨3, [49], [115], [64]⟩] [0] [.openRead [49], .spawnCall 3 [115] [64] 0] = true := by decide
+example : opensOK [⟨3, [49], [115], [64]⟩] [4] [.openRead [49], .report 3 [90, 120]] = true := by decide
+/-- the command grammar of the oracle: two commands, the second cut short -/
+example : parseCmds 11 [3, 49, 0, 0, 64, 0, 4, 50, 0, 115] = [⟨3, [49], [], [64]⟩] := by decide
+
 /-- spawn: delivery 3, message id "1/24", sender "s", recipient "r@h", file regular and owned: opened and spawned -/
 example : (Nq.Spawn.cfeed {} [3, 49, 47, 50, 52, 0, 115, 0, 114, 64, 104, 0]).2 =
     [.openRead [49, 47, 50, 52], .spawnCall 3 [115] [114, 64, 104] 1] := by decide
